@@ -287,6 +287,11 @@ class IRSpec:
                 if v[0] == 'int': return cont(s, ('range', v[1]))
                 return se.exit(s, 'TypeError')
             return se.ev(st, e.args[0], k)
+        if fname == 'enumerate' and len(e.args) == 1 and not e.keywords:
+            def k(s, v):
+                if v[0] != 'list': raise Unsupported('enumerate of %s' % v[0])
+                return cont(s, ('enumerate', v))
+            return se.ev(st, e.args[0], k)
         if fname == 'zip':
             return se.evs(st, e.args, lambda s, vs: cont(s, ('zip', vs[0], vs[1])))
         if fname == 'iter':
@@ -779,6 +784,12 @@ class IRSpec:
                     se.block(s2, node.body, lambda s3: go(s3, idx + 1), k_ret, lambda s3: nxt(s3), lambda s3: go(s3, idx + 1))
                 return go(s, 0)
             spec = LOOPS.get((fr.fi.qual, ordinal))
+            enum = False
+            if dom[0] == 'enumerate':
+                # for k, x in enumerate(<list>): the positional walk of the list with the position bound as well
+                if spec is None or spec.shape != 'plist' or not (isinstance(node.target, ast.Tuple) and len(node.target.elts) == 2):
+                    raise Unsupported('call of enumerate')
+                dom = dom[1]; enum = True
             if spec is None and dom[0] == 'pdict' and ast.unparse(node.body[0]).replace(' ', '') == 'self[%s]=%s[%s]' % (
                     node.target.id, ast.unparse(node.iter), node.target.id) and len(node.body) == 1:
                 spec = PROPERTIES_LOOP        # `for key in properties: self[key] = properties[key]` of the element constructors
@@ -792,7 +803,7 @@ class IRSpec:
             if spec.shape == 'plist' and shape == 'list': shape = 'plist'      # positional walk over a list: element k is at(L, k)
             if shape != spec.shape:
                 raise Unsupported('loop %d of %s iterates a %s, its invariant was written for a %s' % (ordinal, fr.fi.qual, shape, spec.shape))
-            self.cut(se, s, node, spec, dom, shape, ordinal, nxt, k_ret)
+            self.cut(se, s, node, spec, dom, shape, ordinal, nxt, k_ret, enum=enum)
         se.ev(st, node.iter, with_dom)
 
     def while_loop(self, se, st, node, nxt, k_ret):
@@ -956,7 +967,7 @@ class IRSpec:
             se.block(s, node.body, lambda s2: go(s2, idx + 1), k_ret, lambda s2: nxt(s2), lambda s2: go(s2, idx + 1))
         go(st, 0)
 
-    def cut(self, se, st, node, spec, dom, shape, ordinal, nxt, k_ret):
+    def cut(self, se, st, node, spec, dom, shape, ordinal, nxt, k_ret, enum=False):
         c = self.ctx
         fr = st.frames[-1]; fq = st.frames[0].fi.qual
         tag = '%s/%s.loop%d' % (fq, fr.fi.qual, ordinal)
@@ -1013,6 +1024,8 @@ class IRSpec:
                     continue
                 s.heap[f] = c.fresh(f.replace(':', '_') + '_lp', s.heap[f].sort())
             for name, kind in spec.locals.items():
+                if name not in st.env:
+                    continue      # a declared local the function (no longer) has: nothing to summarise; reading it stays an unbound name
                 if kind == 'list':
                     t, _ = c.L_any(name); s.env[name] = ('list', t, ('local', name))
                 elif kind == 'bool':
@@ -1074,7 +1087,7 @@ class IRSpec:
             elif shape == 'plist':
                 el = c.at(dom[1], idx)
                 sb.pc.append(c.cnt(dom[1], el) > 0)
-                self.bind_target(sb, node.target, R(el))
+                self.bind_target(sb, node.target, ('tuple', [I(idx), R(el)]) if enum else R(el))
             else:
                 self.bind_target(sb, node.target, I(idx))
             nseen = None; nidx = idx + 1
